@@ -197,7 +197,22 @@ type World struct {
 	Log     []Entry
 	Emitted int // Log[:Emitted] has happened on the server
 	P0, Q0  int
-	C0      map[int64]int // tracked channels and their initial pts
+	C0      map[int64]int // every channel of the scenario and the pts its part of the log starts from
+
+	// Fresh: channels the storage knows nothing about at the start (they are met during the run).
+	// Late: channels whose access hash the client does not know until action K (Known).
+	Fresh, Late, Known map[int64]bool
+	// stored: channels the storage of this run knew at its start (a restart: the crash snapshot).
+	stored map[int64]bool
+	// Created: channels without stored state that have been met, with the position they were met at
+	// (pts - pts_count of the first update routed to them): where their sequence starts for this client.
+	// Predicted by the harness from what it pushed / what the oracle forwarded, not read from the manager.
+	Created map[int64]int
+	live    map[int64]bool // channels expected to have a worker (loaded at the start, or met)
+	MetVia  map[int64]string // how a channel was met: push | common-difference | channel-difference
+	// Started: channels for which the manager has (or is about to have) a worker: loaded at the start,
+	// or the manager asked the storage for their pts (handleChannel does so right before starting one).
+	Started map[int64]bool
 
 	Slice       int            // >0: common differences carry at most Slice entries per answer
 	ChanSlice   int            // >0: channel differences carry at most ChanSlice entries per answer
@@ -224,7 +239,62 @@ type World struct {
 
 func NewWorld(log []Entry, p0, q0 int, c0 map[int64]int) *World {
 	return &World{Log: log, P0: p0, Q0: q0, C0: c0, ChanTooLong: map[int64]bool{}, Extra: map[string][]int{}, FailNext: map[string]bool{}, inDiff: map[int64]bool{},
-		lastFinal: map[int64]bool{}, genuineTL: map[int64]int{}}
+		lastFinal: map[int64]bool{}, genuineTL: map[int64]int{},
+		Fresh: map[int64]bool{}, Late: map[int64]bool{}, Known: map[int64]bool{}, stored: map[int64]bool{}, Created: map[int64]int{}, Started: map[int64]bool{}, live: map[int64]bool{}, MetVia: map[int64]string{}}
+}
+
+// hashUnknown: nobody can tell the client the channel's access hash right now.
+func (w *World) hashUnknown(c int64) bool { return UnknownChan(c) || (w.Late[c] && !w.Known[c]) }
+
+// contact is called (with the lock held) for every container of updates that reaches the main
+// loop's routing: a push, or the foreign updates forwarded by a difference answer. A channel that
+// has no worker and no stored state is met at the lowest pts - pts_count of its updates in the
+// container (the routing sorts by that).
+func (w *World) contact(container []Entry, via string) {
+	for _, en := range container {
+		if en.Kind != KChMsg && en.Kind != KChOther {
+			continue
+		}
+		c := en.Chan
+		if _, ours := w.C0[c]; !ours || w.hashUnknown(c) || w.live[c] {
+			continue
+		}
+		if !w.stored[c] {
+			low := en.Pos - en.Count
+			for _, f := range container {
+				if (f.Kind == KChMsg || f.Kind == KChOther) && f.Chan == c {
+					low = min(low, f.Pos-f.Count)
+				}
+			}
+			w.Created[c] = low
+		}
+		w.live[c] = true
+		w.MetVia[c] = via
+	}
+}
+
+// LiveChannels: the channels the harness expects to have a worker (ascending).
+func (w *World) LiveChannels() []int64 {
+	w.mu.Lock()
+	defer w.mu.Unlock()
+	var cs []int64
+	for c := range w.live {
+		cs = append(cs, c)
+	}
+	sort.Slice(cs, func(i, j int) bool { return cs[i] < cs[j] })
+	return cs
+}
+
+// StartedChannels: the channels the manager has started (or is starting) a worker for (ascending).
+func (w *World) StartedChannels() []int64 {
+	w.mu.Lock()
+	defer w.mu.Unlock()
+	var cs []int64
+	for c := range w.Started {
+		cs = append(cs, c)
+	}
+	sort.Slice(cs, func(i, j int) bool { return cs[i] < cs[j] })
+	return cs
 }
 
 // Channels returns the tracked channel ids in ascending order.
@@ -294,6 +364,7 @@ func (w *World) commonDifference(pts, qts int) tg.UpdatesDifferenceClass {
 		return &tg.UpdatesDifferenceEmpty{Date: Date0, Seq: 0}
 	}
 	extras := w.takeExtras("pts", false)
+	w.contact(extras, "common-difference")
 	st := tg.UpdatesState{Pts: pts, Qts: qts, Date: Date0, Seq: 0}
 	sv := Served{Seq: "pts", Kind: "diff"}
 	var msgs []tg.MessageClass
@@ -373,6 +444,7 @@ func (w *World) channelDifference(c int64, pts int) tg.UpdatesChannelDifferenceC
 		return &tg.UpdatesChannelDifferenceEmpty{Final: true, Pts: max(pts, sp)}
 	}
 	extras := w.takeExtras(seq, false)
+	w.contact(extras, "channel-difference")
 	sv := Served{Seq: seq, Kind: "diff"}
 	d := &tg.UpdatesChannelDifference{Final: !more, Pts: pts}
 	if len(part) == 0 {
@@ -504,6 +576,10 @@ func (s *Store) SetDateSeq(_ context.Context, _ int64, date, seq int) error {
 }
 
 func (s *Store) GetChannelPts(_ context.Context, _, channelID int64) (int, bool, error) {
+	// only handleChannel asks, right before it starts the channel's worker
+	s.env.W.mu.Lock()
+	s.env.W.Started[channelID] = true
+	s.env.W.mu.Unlock()
 	s.mu.Lock()
 	defer s.mu.Unlock()
 	p, ok := s.chans[channelID]
@@ -536,12 +612,15 @@ func (s *Store) ForEachChannels(ctx context.Context, _ int64, f func(ctx context
 	return nil
 }
 
-// hasher knows an access hash for every channel.
-type hasher struct{}
+// hasher knows an access hash for every channel of the scenario, for the late ones from action K on.
+type hasher struct{ w *World }
 
 func (hasher) SetChannelAccessHash(context.Context, int64, int64, int64) error { return nil }
-func (hasher) GetChannelAccessHash(_ context.Context, _, channelID int64) (int64, bool, error) {
-	if UnknownChan(channelID) {
+func (h hasher) GetChannelAccessHash(_ context.Context, _, channelID int64) (int64, bool, error) {
+	h.w.mu.Lock()
+	unknown := h.w.hashUnknown(channelID)
+	h.w.mu.Unlock()
+	if unknown {
 		return 0, false, nil
 	}
 	return channelID*1000 + 1, true, nil
